@@ -7,6 +7,7 @@ import Poulpy.Lemmas.PackAlg
 import Poulpy.Lemmas.GadgetExec
 import Poulpy.Lemmas.AutoMul
 import Poulpy.Lemmas.PackGalois
+import Poulpy.Lemmas.PackPhase
 import Poulpy.Model.Core.Pack
 import Poulpy.Props.C09
 
@@ -659,6 +660,67 @@ theorem pack_galois_later (logN i j : ℕ) (h1 : i < j) (h2 : j < logN) :
 
 example : (2 ^ (4 - 1 - 1) * 5 ^ (2 ^ (1 - 1))) % 2 ^ (4 + 1) = (2 ^ (4 - 1 - 1) + 2 ^ 4) % 2 ^ (4 + 1) := by decide
 example : (2 ^ (4 - 1 - 0) * 5 ^ (2 ^ (2 - 1))) % 2 ^ (4 + 1) = (2 ^ (4 - 1 - 0)) % 2 ^ (4 + 1) := by decide
+
+/-! ### the executed packing / trace steps are the abstract ones (data flow, under the ideal-operation contract)
+
+`Ks.IdealOps c ph N big128 keyOf`: the phase map `ph` turns each elementary operation used by `pack_internal` / `combine` /
+`glwe_trace_assign` into its noise-free meaning (`glwe_rotate` = `rot`, `glwe_rsh(1)` = `half`, add / sub exact,
+`glwe_normalize_assign` = identity, the key-switching automorphisms of level `i` = `sig i`).  The contract holds exactly for the
+linear operations (C02) and up to the gadget noise (`keyswitch_value`, `automorphism_phase_key`) and one rounding unit (C08) for
+`rsh` and the automorphisms; what is proved here is that the *code* composes them as the abstract step does — operand order,
+rotation amounts, signs. -/
+
+/-- **`mergeStep` = `Pack.merge` on the phases**, in its three branches (both slots / only lower / only upper, an absent slot = 0) -/
+theorem pack_merge_step_phase {M : Type*} [AddCommGroup M] (c : Pack.Contract M) (ph : Ct → M) (N : Nat) (big128 : Bool)
+    (keyOf : Nat → Key) (H : Ks.IdealOps c ph N big128 keyOf) (i : Nat)
+    (ht : c.t i = ((2 ^ (log2Nat N - i - 1) : Nat) : Int)) (a b : Option Ct) (sh r : Ct) (hab : a.isSome ∨ b.isSome)
+    (h : mergeStep big128 N i (keyOf i) a b sh = .ok (some r)) :
+    ph r = Pack.merge c i ((a.map ph).getD 0) ((b.map ph).getD 0) :=
+  Ks.mergeStep_phase c ph N big128 keyOf H i ht a b sh r hab h
+
+/-- the branch a sign flip would break: only the upper slot present ⇒ `X^t b/2 − σ(X^t b/2)` -/
+theorem pack_merge_step_hi_phase {M : Type*} [AddCommGroup M] (c : Pack.Contract M) (ph : Ct → M) (N : Nat) (big128 : Bool)
+    (keyOf : Nat → Key) (H : Ks.IdealOps c ph N big128 keyOf) (i : Nat)
+    (ht : c.t i = ((2 ^ (log2Nat N - i - 1) : Nat) : Int)) (b sh r : Ct)
+    (h : mergeStep big128 N i (keyOf i) none (some b) sh = .ok (some r)) : ph r = Pack.stepHi c i (ph b) :=
+  Ks.mergeStep_hi_phase c ph N big128 keyOf H i ht b sh r h
+
+/-- the contract is satisfiable (degenerate witness: the zero phase; the non-degenerate content is the tie + oracle) -/
+example : Ks.IdealOps Pack.model (fun _ => (0 : ℚ × ℚ)) 8 false (fun _ => exKey3) :=
+  ⟨by intros; simp, by intros; simp, by intros; simp, by intros; simp, by intros; simp, by intros; simp, by intros; simp,
+   by intros; simp, by intros; simp, by intros; simp⟩
+
+/-- **trace = composition, by induction on the levels**: the executed loop of `glwe_trace_assign` (`glwe_rsh(1)` then
+`glwe_automorphism_add_assign` with the key of level `i`) maps the phase to `P_{i_k}(… P_{i_1}(φ))`, `P_i(x) = x/2 + σ_i(x/2)` -/
+theorem trace_is_composition {M : Type*} [AddCommGroup M] (c : Pack.Contract M) (ph : Ct → M) (big128 : Bool) (keys : List Key)
+    (hrsh : ∀ x y, glweRsh 1 x = .ok y → ph y = c.half (ph x))
+    (hauto : ∀ i x key p y, traceGalois x.n i = .ok p → keys.find? (fun k => k.p == p) = some key →
+      automorphismFused .add big128 (zeroBuf x.n (x.rank + 1) key.size) x.base2k x.size x.rank x key = .ok y →
+      (y.n = x.n ∧ ph y = ph x + c.sig i (ph x)))
+    (hn : ∀ x y, glweRsh 1 x = .ok y → y.n = x.n)
+    (levels : List Nat) (x r : Ct) (h : traceLoop big128 keys x levels = .ok r) :
+    ph r = Ks.traceAbs c levels (ph x) :=
+  Ks.traceLoop_phase c ph big128 keys hrsh hauto hn levels x r h
+
+example : traceLoop false [] (mkCt 4 8 []) [] = .ok (mkCt 4 8 []) := rfl
+
+/-- **partial trace**: a phase `u + Σ v_k` with `u` fixed by the automorphisms of all the levels run and every `v_k` killed
+(negated at some level after being fixed by the earlier ones: `partial_trace_kills`) is mapped to `u` — the coefficients at
+multiples of the gap survive with scale 1, the others vanish -/
+theorem partial_trace {M : Type*} [AddCommGroup M] (c : Pack.Contract M) (levels : List Nat) (u : M) (vs : List M)
+    (hu : ∀ i ∈ levels, c.sig i u = u) (hv : ∀ v ∈ vs, Ks.traceAbs c levels v = 0) :
+    Ks.traceAbs c levels (u + vs.sum) = u := Ks.traceAbs_decomp c levels u vs hu hv
+
+theorem partial_trace_kills {M : Type*} [AddCommGroup M] (c : Pack.Contract M) (pre : List Nat) (j : Nat) (post : List Nat) (x : M)
+    (hpre : ∀ i ∈ pre, c.sig i x = x) (hj : c.sig j x = -x) : Ks.traceAbs c (pre ++ j :: post) x = 0 :=
+  Ks.traceAbs_killed c pre j post x hpre hj
+
+/-- in `ℚ[X]/(X²+1)`: the trace over level 0 keeps the constant `(a, 0)` and kills `(0, b) = b·X` (`σ_{−1}(X) = −X`) -/
+example (a b : ℚ) : Ks.traceAbs Pack.model [0] ((a, 0) + [((0 : ℚ), b)].sum) = (a, 0) :=
+  partial_trace Pack.model [0] (a, 0) [(0, b)]
+    (by intro i hi; simp at hi; subst hi; simp [Pack.model, Pack.Model.conj])
+    (by intro v hv; simp at hv; subst hv
+        exact partial_trace_kills Pack.model [] 0 [] (0, b) (by simp) (by simp [Pack.model, Pack.Model.conj]))
 
 /-- Layer A: the packing tree only uses the keys of the levels it runs — with no input at all `glwe_pack` panics
 (`a.keys().max().unwrap()`), and an input beyond the ring degree is refused -/
